@@ -265,8 +265,11 @@ def gen_range_hist(g, hid):
             # only answers that do not depend on the order in which the scan delivers the rows: the window's
             # ORDER BY / PARTITION BY are bound but IGNORED by the planner and WindowExecutor (a running
             # aggregate in scan order; recorded finding engines:window-ignores-order-by, witness in corpus/C05)
-            q = r.choice(["select row_number() over (order by a) from t0", "select count(a) over (order by a) from t0",
-                          "select row_number() over (order by a), count(a) over (order by a) from t0"])
+            # (and the i-th window function is fed the i-th column of the child's row instead of its own
+            # argument - `agg_list_append` zips functions with row values -, so `count(a)` / `sum(b)` read
+            # some other column: same finding text; only row_number() is independent of both)
+            q = r.choice(["select row_number() over (order by a) from t0", "select row_number() over (order by b) from t0",
+                          "select row_number() over (partition by b order by a) from t0"])
             queries.append((k, q, "win", None))
             g.count("query:win")
 
